@@ -55,6 +55,16 @@ namespace c07
     std::vector<char> fixed((size_t)n, 0); for(int i : fidx) fixed[(size_t)i] = 1;
     int n_int = n - (int)fidx.size();
 
+    // ---- known-finding classes (switched off by the driver once registered; see findings/C07.md)
+    //  zero initial defect (rhs 0, exact start vector, fully constrained system): BiCGStab / BiCGStab(l) return
+    //  Status::undefined, IDR(s) divides 0/0 and returns 'aborted' with a NaN iterate
+    const bool avoid_zero_def = (kind == K_BICGSTAB && c.excl("c07-bicgstab-zero-defect")) || (kind == K_BICGSTABL && c.excl("c07-bicgstabl-zero-defect"))
+      || (kind == K_IDRS && c.excl("c07-idrs-zero-defect"));
+    //  BiCGStab / RBiCGStab accept convergence after the half step without looking at min_iter
+    const bool avoid_min_iter = (kind == K_BICGSTAB || kind == K_RBICGSTAB) && c.excl("c07-bicgstab-halfstep-min-iter");
+    //  IDR(s) keeps _shadow_space_setup == true over done_symbolic()/init_symbolic() although the shadow vectors are re-allocated
+    const bool avoid_idrs_reinit = (kind == K_IDRS) && c.excl("c07-idrs-reinit-shadow-space");
+
     // ---- system the way every caller prepares it: filter_mat on the assembled matrix
     Pat pat = sys.pat();
     LM Af = make_csr<DT, Index>(pat);
@@ -151,20 +161,21 @@ namespace c07
     {
       SolveSpec s; s.correct = t.flag(1, 2);
       int rc = t.pick({4, 3, 1, 1, 2});
+      SubTape vt(t.raw(), (size_t)(2 * n + 2), t.size); Tape& r = vt.t;   // vector entries: one choice expands to the values
       std::vector<double> xs((size_t)n, 0.0);
       const bool ints = sys.integer;
       switch(rc)
       {
-      case 0: s.rhs_cls = "rand-real"; s.b.resize((size_t)n); s.rhs_generic = true; for(auto& x : s.b) { x = t.real(2); if(x == 0.0) s.rhs_generic = false; } break;
+      case 0: s.rhs_cls = "rand-real"; s.b.resize((size_t)n); s.rhs_generic = true; for(auto& x : s.b) { x = r.real(2); if(x == 0.0) x = 1.0; } break;
       case 1: {
-        s.rhs_cls = "A*xs"; for(auto& x : xs) x = ints ? t.real(0) : t.real(1);
+        s.rhs_cls = "A*xs"; for(auto& x : xs) x = ints ? r.real(0) : r.real(1);
         for(int i = 0; i < n; ++i) if(fixed[(size_t)i]) xs[(size_t)i] = 0.0;
         for(size_t k = 0; k < fidx.size(); ++k) xs[(size_t)fidx[k]] = (double)DT(fval[k]);
         s.b.assign((size_t)n, 0.0); for(int i = 0; i < n; ++i) { double a = 0; for(int j = 0; j < n; ++j) if(D.st(i, j)) a += (double)D(i, j) * xs[(size_t)j]; s.b[(size_t)i] = a; }
         break; }
       case 2: s.rhs_cls = "zero"; s.b.assign((size_t)n, 0.0); break;
-      case 3: s.rhs_cls = "unit"; s.b.assign((size_t)n, 0.0); s.b[(size_t)t.range(0, n - 1)] = 1.0; break;
-      default: s.rhs_cls = "rand-int"; s.b.resize((size_t)n); for(auto& x : s.b) x = t.real(0); break;
+      case 3: s.rhs_cls = "unit"; s.b.assign((size_t)n, 0.0); s.b[(size_t)r.range(0, n - 1)] = 1.0; break;
+      default: s.rhs_cls = "rand-int"; s.b.resize((size_t)n); for(auto& x : s.b) x = r.real(0); break;
       }
       LV tmp((Index)n);
       if(s.correct)
@@ -174,7 +185,7 @@ namespace c07
         switch(xc)
         {
         case 0: s.x0_cls = "zero"; s.x0.assign((size_t)n, 0.0); break;
-        case 1: s.x0_cls = "rand"; s.x0.resize((size_t)n); for(auto& x : s.x0) x = ints ? t.real(0) : t.real(2); break;
+        case 1: s.x0_cls = "rand"; s.x0.resize((size_t)n); for(auto& x : s.x0) x = ints ? r.real(0) : r.real(2); break;
         case 2: s.x0_cls = "exact"; s.x0 = xs; s.exact_start = ints; break;
         default: {
           s.x0_cls = "near-exact"; std::vector<LD> bb(s.b.begin(), s.b.end()); auto xr = lu.solve(bb); s.x0.resize((size_t)n); for(int i = 0; i < n; ++i) s.x0[(size_t)i] = (double)DT((double)xr[(size_t)i]); break; }
@@ -189,6 +200,21 @@ namespace c07
         s.x0_cls = "n/a";
       }
       if(have_filter && s.rhs_generic) { for(int i = 0; i < n; ++i) if(!fixed[(size_t)i] && s.b[(size_t)i] == 0.0) s.rhs_generic = false; }
+      if(avoid_zero_def)
+      {
+        // steer away from a zero initial defect: perturb the first free component until ||b - A x0|| > 0
+        std::vector<LD> bL((size_t)n), x0L((size_t)n, 0.0L);
+        for(int guard = 0; guard < 4; ++guard)
+        {
+          for(int i = 0; i < n; ++i) { bL[(size_t)i] = (LD)DT(s.b[(size_t)i]); x0L[(size_t)i] = s.correct ? (LD)DT(s.x0[(size_t)i]) : 0.0L; }
+          LD bn = norm2(bL), xn = norm2(x0L);
+          // "zero up to rounding": the solver's own evaluation in DT may give exactly 0 there
+          if(norm2(resid(D, x0L, bL)) > 64.0L * (LD)n * u * (Afro * xn + bn) && bn + xn > 0.0L) break;
+          int f = 0; while(f < n && fixed[(size_t)f]) ++f;
+          if(f >= n) break;   // fully constrained: handled by the filter generator
+          s.b[(size_t)f] += (double)(guard + 1) * std::max(1.0, std::fabs(diag[(size_t)f])); s.rhs_cls += "+nz"; s.exact_start = false; if(s.x0_cls == "exact" || s.x0_cls == "near-exact") s.x0_cls += "-perturbed";
+        }
+      }
       (void)first; return s;
     };
     SolveSpec SA = gen_solve(true);
@@ -225,6 +251,14 @@ namespace c07
         if(n_int < 3 * sp.dim + 2 && !((kind == K_FGMRES || kind == K_GMRES) && sp.dim > n_int && false)) { claim.on = false; claim.why = "n < 3*dim+2"; }
       }
       if(bud > 60000) { claim.on = false; claim.why = "budget above cap"; bud = 60000; }
+      {
+        // the requested reduction must stay above the attainable accuracy u (||A|| ||x|| + ||b||) (start vectors that are
+        // already exact up to rounding cannot be improved by a factor tol_rel: domain fact, not a defect)
+        std::vector<LD> bL((size_t)n), x0L((size_t)n, 0.0L); for(int i = 0; i < n; ++i) { bL[(size_t)i] = (LD)DT(SA.b[(size_t)i]); if(SA.correct) x0L[(size_t)i] = (LD)DT(SA.x0[(size_t)i]); }
+        LD d0 = norm2(resid(D, x0L, bL)); auto xr = lu.solve(bL);
+        LD attain = 50.0L * (LD)n * u * (Afro * std::max(norm2(xr), norm2(x0L)) + norm2(bL));
+        if(d0 > 0.0L && (LD)cfg.tol_rel * d0 < attain) { claim.on = false; claim.why = "tol_rel*d0 below attainable accuracy"; }
+      }
       cfg.max_iter = (int)std::max(1.0, std::ceil(bud)); cfg.min_iter = 0;
       claim.budget = cfg.max_iter;
       if(!claim.on && claim.why.empty()) claim.why = "not claimed";
@@ -237,6 +271,8 @@ namespace c07
       if(t.flag(1, 4)) { cfg.has_tol_abs_low = true; cfg.tol_abs_low = bsc * std::pow(10.0, -t.range(0, 10)); if(cfg.has_tol_abs) cfg.tol_abs_low = std::min(cfg.tol_abs_low, cfg.tol_abs); } else t.raw();
       cfg.max_iter = t.sized(1, 200, 6); cfg.min_iter = std::min(cfg.max_iter, t.range(0, 5));
       if(t.flag(1, 8)) cfg.min_iter = cfg.max_iter;       // defect-skipping class (min_iter >= max_iter)
+      if(avoid_min_iter) cfg.min_iter = 0;
+      if(avoid_zero_def) { cfg.has_tol_abs_low = false; cfg.tol_abs_low = 0; }
       cfg.min_stag = t.pick({4, 1, 1, 1});
       { static const double sr[5] = { 0.95, 0.5, 0.99, 0.1, 1.0 }; int k = t.pick({3, 2, 1, 1, 1}); if(k) { cfg.has_stag_rate = true; cfg.stag_rate = sr[k]; } }
       { static const double dr[5] = { 0, 1e3, 10.0, 2.0, 0.5 }; int k = t.pick({4, 1, 1, 1, 1}); if(k) { cfg.has_div_rel = true; cfg.div_rel = dr[k]; } }
@@ -250,6 +286,7 @@ namespace c07
     bool have_b = t.flag(1, 3);
     SolveSpec SB; if(have_b) SB = gen_solve(false);
     int reinit = t.pick({2, 1, 1});     // none / numeric / full
+    if(avoid_idrs_reinit && reinit == 2) reinit = 1;
     int done_style = t.pick({2, 1});
     std::vector<std::string> ops;
     ops.push_back(init_style ? "init_symbolic+init_numeric" : "init"); ops.push_back("A");
@@ -307,6 +344,7 @@ namespace c07
       c.desc.set("probe", J(std::string(ok ? status_name(pst) : "failed") + "/" + std::to_string(pit)));
     }
     c.announce();
+    c.fd = -1;   // the description is complete: suppress the scaffold's re-announce at the end of the case (it would count every label twice)
 
     // ---- judged run
     auto solver = mk();
@@ -423,7 +461,10 @@ namespace c07
     if(unit)
     {
       unsigned p = (unsigned)t.range(0, 8);
-      for(int i = 0; i < sys.n; ++i) { bool on = t.flag(p, 8); double v = sys.integer ? t.real(0) : t.real(1); if(on) { fidx.push_back(i); fval.push_back(v); } }
+      SubTape ft(t.raw(), (size_t)(2 * sys.n), t.size);
+      for(int i = 0; i < sys.n; ++i) { bool on = ft.t.flag(p, 8); double v = sys.integer ? ft.t.real(0) : ft.t.real(1); if(on) { fidx.push_back(i); fval.push_back(v); } }
+      // a fully constrained system has a zero defect for every input (see the zero-defect findings)
+      if((int)fidx.size() == sys.n && ((kind == K_BICGSTAB && c.excl("c07-bicgstab-zero-defect")) || (kind == K_BICGSTABL && c.excl("c07-bicgstabl-zero-defect")) || (kind == K_IDRS && c.excl("c07-idrs-zero-defect")))) { fidx.pop_back(); fval.pop_back(); }
       run_case<G, DT, BEt, UnitFilter<DT, Index>>(t, c, sys, kind, conv_mode, fidx, fval);
     }
     else run_case<G, DT, BEt, NoneFilter<DT, Index>>(t, c, sys, kind, conv_mode, fidx, fval);
